@@ -1,7 +1,10 @@
 """Per-property configuration: which theorems are the obligations, which runner ties the model to the code."""
-from vcheck import eval_runner, parse_runner
+from vcheck import eval_runner, parse_runner, ana_runner
 
 PROPS = {
+    'C20': dict(level='proof', theorems=['Mp.ni_path_full'], runner=ana_runner),
+    'C10': dict(level='proof', theorems=[], runner=eval_runner),
+    'C11': dict(level='proof', theorems=[], runner=eval_runner),
     'C08': dict(
         level='proof',
         theorems=['Mp.scan_progress', 'Mp.parse_fuel_sufficient'],
